@@ -208,6 +208,7 @@ type connRec struct {
 	dialAddr  string
 	tgtGate   chan struct{} // closed when the fake target may answer
 	tgtGot    string
+	tgtCount  int
 	gateOnce  sync.Once
 	authOnce  sync.Once
 	closeOnce sync.Once
@@ -470,11 +471,17 @@ func (s *server) targetLoop() {
 			}
 			rec.mu.Lock()
 			rec.tgtGot = line
+			rec.tgtCount++
+			first := rec.tgtCount == 1
 			rec.mu.Unlock()
-			select {
-			case <-rec.tgtGate:
-			case <-time.After(15 * time.Second):
-				return
+			// only the connection's own request is held back until the driver lets the target answer; the same request
+			// arriving again (a replayed client stream that the server accepted) is answered at once
+			if first {
+				select {
+				case <-rec.tgtGate:
+				case <-time.After(15 * time.Second):
+					return
+				}
 			}
 			c.Write(respPayload(id))
 			c.CloseWrite()
